@@ -91,7 +91,14 @@ def defects(rng, line, sep, tree=None, style=None):
             break
         pos, c = rng.randint(0, len(line)), rng.choice(own)
         cand = line[:pos] + (c + ' ' if p == ' ' else c) + line[pos:]
-        if reference_reject(cand, sep, True) == 'punctuation':
+        # the mark must be a mark inside the text, not a damaged or a spurious separator: the separator occurrences
+        # are those of the line with a neutral letter in its place, and deleting one kind of separator does not
+        # make another one appear (that input belongs to the known class spurious_separator_occurrence of C04)
+        neutral = line[:pos] + ('z ' if p == ' ' else 'z') + line[pos:]
+        stable = all(occurrences(cand.replace(x, ''), tuple(y if y != x else None for y in sep)) ==
+                     occurrences(neutral.replace(x, ''), tuple(y if y != x else None for y in sep))
+                     for x in (p, s, w) if x and x != ' ')
+        if reference_reject(cand, sep, True) == 'punctuation' and occurrences(cand, sep) == occurrences(neutral, sep) and stable:
             out.append(('punctuation-separator-char', cand))
             break
     if s and p == ' ' and (' ' + s + ' ' + w) in line:
